@@ -989,4 +989,29 @@ Qed.
 Theorem c03_tolerance_l tr s : run sh init tr = Some s -> mon_tol (sh, tr) = true.
 Proof. intro H. destruct (run_R tr s H) as (m & Hm & _). unfold mon_tol. simpl. now rewrite Hm. Qed.
 
+Lemma c03_tolerance_wf tr s : shape_wf sh = true -> run sh init tr = Some s -> mon_tol (sh, tr) = true.
+Proof. intros _. apply c03_tolerance_l. Qed.
+
+Lemma mon_run_app m tr1 tr2 :
+  mon_run sh m (tr1 ++ tr2) = match mon_run sh m tr1 with Some m1 => mon_run sh m1 tr2 | None => None end.
+Proof. revert m; induction tr1 as [|e tr IH]; intro m; simpl; [reflexivity|]. destruct (mstep_opt sh m e); auto. Qed.
+
+(* the "eventually" part: at the release the block shows the status last written for it, and the plan is Failed
+   if that block Failed *)
+Lemma c03_release_l tr fin s :
+  run sh init (tr ++ [EvRelease fin]) = Some s ->
+  exists m, mon_run sh m0 tr = Some m /\
+            (forall c, m_cur m = Some c -> fin_is fin (OBlock c) (m_bst m) = true) /\
+            (m_bst m = Failed -> fin_is fin OPlan Failed = true).
+Proof.
+  intro H. destruct (run_R _ _ H) as (m' & Hm & _). rewrite mon_run_app in Hm.
+  destruct (mon_run sh m0 tr) as [m|]; [|discriminate]. exists m. split; [reflexivity|].
+  simpl in Hm. unfold mstep_opt in Hm. cbn [mstep] in Hm.
+  destruct (negb (match m_cur m with Some c => fin_is fin (OBlock c) (m_bst m) | None => true end)) eqn:E1; [discriminate|].
+  destruct (status_eqb (m_bst m) Failed && negb (fin_is fin OPlan Failed)) eqn:E2; [discriminate|].
+  apply negb_false_iff in E1. split.
+  - intros c Hc. rewrite Hc in E1. exact E1.
+  - intro Hf. rewrite Hf in E2. simpl in E2. now apply negb_false_iff in E2.
+Qed.
+
 End Rel.
